@@ -20,13 +20,13 @@ RULE = ('values: seeded random JSON documents (nesting to depth 6, empty contain
         'fractional, both exponent signs and cases, -0, huge and tiny), serialised with random JSON white space; 17 wide '
         'values (300-1500 members); 98 strings whose content is a word of JavaScript / Python / JSON as value, element, '
         'member and key; '
-        'configurations {fold_ops off, on} x {var, assignment, nested in function}; a case = (json text, form, '
+        'configurations {fold_ops off, on} x {ignore_errors off, on} x {var, assignment, nested in function}; a case = (json text, form, '
         'fold_ops); non-trivial = the value is a container, or a string with an escape, or a non-integer number; '
         'distinct by that triple.')
 ASSUMPTIONS = ['json.loads of the standard library is the reference model; only spellings valid in both JSON and ES5 are '
                'generated (no U+2028/U+2029 raw in strings)']
 BUDGET_S = {'quick': 90, 'thorough': 600}
-REQUIRED_HITS = ['ast_to_dict', 'LiteralEval', 'GroupAsMap', 'GroupAsList', 'wide_value', 'word_string']
+REQUIRED_HITS = ['ast_to_dict', 'LiteralEval', 'GroupAsMap', 'GroupAsList', 'wide_value', 'word_string', 'ignore_errors', 'falsy_value']
 FLOOR = {'quick': 5000, 'thorough': 60000}
 
 
@@ -244,7 +244,12 @@ def check(ctx, jtext, form, fold):
         ctx.count('not_accepted_as_es5')       # C03's concern
         return
     try:
-        result = ex.ast_to_dict(tree, fold_ops=fold)
+        # fold: bit 0 = fold_ops, bit 1 = ignore_errors (the lenient dispatcher); a literal converts without error, so
+        # the option may not change what it converts to
+        fold = int(fold)
+        if fold & 2:
+            ctx.hit('ignore_errors')
+        result = ex.ast_to_dict(tree, fold_ops=bool(fold & 1), **({'ignore_errors': True} if fold & 2 else {}))
     except RecursionError:
         ctx.count('skipped:resource_limit')
         return
@@ -287,7 +292,7 @@ def run(ctx):
             j = gen_value(ctx, rng, rng.randint(0, 6), ws)
             forms = list(BASE_FORMS) if i % 4 == 0 else [BASE_FORMS[i % len(BASE_FORMS)], 'var', sorted(CONTEXT_FORMS)[i % len(CONTEXT_FORMS)]]
             for form in forms:
-                for fold in (False, True):
+                for fold in (0, 1, 2 + (i & 1)):
                     check(ctx, j, form, fold)
             if not (i & 0x3f) and ctx.out_of_time():
                 break
@@ -299,6 +304,19 @@ def run(ctx):
                 for form in BASE_FORMS:
                     for fold in (False, True):
                         check(ctx, jtext, form, fold)
+        # values that are empty or falsy - what a placeholder, a default or a filter could be confused with - at every position
+        falsy = ['""', '0', 'false', 'null', '[]', '{}', '-0', '0.0', '" "', '"0"']
+        k = 0
+        for a in falsy:
+            for jtext in (a, '[%s]' % a, '["a", %s, "b"]' % a, '[%s, %s]' % (a, a), '[[1, %s], [2, "x"]]' % a, '{"k": %s}' % a,
+                          '{"k": [%s], "": %s}' % (a, a), '[{"a": %s}, %s, [%s]]' % (a, a, a), '{"": {"": %s}}' % a,
+                          '[%s]' % ', '.join(falsy), '{%s}' % ', '.join('"k%d": %s' % (n, v) for n, v in enumerate(falsy))):
+                k += 1
+                if k % ctx.nshards == ctx.shard:
+                    ctx.hit('falsy_value')
+                    for form in BASE_FORMS:
+                        for fold in (0, 1, 2, 3):
+                            check(ctx, jtext, form, fold)
         # every such word as the value, as an element, as a member value and as a key
         for k, word in enumerate(WORDS):
             if k % ctx.nshards == ctx.shard:
@@ -307,7 +325,7 @@ def run(ctx):
                 for jtext in (q, '[%s]' % q, '[1, %s, %s]' % (q, q), '{"k": %s}' % q, '{%s: 1}' % q, '{%s: %s}' % (q, q),
                               '{"a": {%s: [%s]}}' % (q, q)):
                     for form in BASE_FORMS:
-                        for fold in (False, True):
+                        for fold in (0, 1, 2, 3):
                             check(ctx, jtext, form, fold)
         # every number spelling and every escape on its own
         for k, num in enumerate(NUMBERS):
@@ -318,7 +336,7 @@ def run(ctx):
                         check(ctx, '[%s]' % num, form, fold)
         for k, e in enumerate(ESCAPES + RAW):
             if k % ctx.nshards == ctx.shard:
-                for fold in (False, True):
+                for fold in (0, 1, 2, 3):
                     check(ctx, json.dumps(e) if e in RAW else '"%s"' % e, 'var', fold)
     finally:
         h.remove()
@@ -327,12 +345,12 @@ def run(ctx):
 def replay(ctx, witness):
     h = Hits(ctx).install()
     try:
-        check(ctx, witness['json'], witness.get('form', 'var'), bool(witness.get('fold_ops')))
+        check(ctx, witness['json'], witness.get('form', 'var'), int(witness.get('fold_ops') or 0))
     finally:
         h.remove()
 
 
 def canary(ctx, spec):
     sub = type(ctx)(ctx.prop, ctx.tier, ctx.seed, 0, 1, 30)
-    check(sub, spec['json'], spec.get('form', 'var'), bool(spec.get('fold_ops')))
+    check(sub, spec['json'], spec.get('form', 'var'), int(spec.get('fold_ops') or 0))
     return next(iter(sub.viol_count), None)
